@@ -213,7 +213,7 @@ func lastDigitNeighbour(s string) string {
 func c13Run(r *mon.Run) {
 	// (1) grammar: every string over the alphabet up to length L
 	alpha := []string{"0", "1", "9", "-", "+", ".", "e", "E", "x"}
-	L := r.Pick(6, 8)
+	L := r.Pick(7, 9)
 	k := 0
 	gen.TokensSharded(alpha, L, r.Shard, mon.LogicalShards, func(s []byte, n int) bool {
 		if n == 1 && r.Shard != 0 {
@@ -247,7 +247,7 @@ func c13Run(r *mon.Run) {
 	}
 	// (2) all ordered pairs from the accepted strings up to length P over a smaller alphabet
 	var small []string
-	P := r.Pick(4, 5)
+	P := r.Pick(5, 5)
 	gen.Tokens([]string{"0", "1", "9", "-", ".", "e", "E", "+"}, P, func(s []byte, n int) bool {
 		if ref.JSONNumberRE.Match(s) && !ref.ZeroExp(string(s)) {
 			small = append(small, string(s))
@@ -323,7 +323,7 @@ func init() {
 				c13Pair(r, c.A, c.B, na, nb)
 			}
 		},
-		Rule:               "grammar: every string over {0 1 9 - + . e E x} up to length 6 (quick) / 8 (thorough) is given to NewNumber and compared with the RFC 8259 number regex; for accepted strings String() must be a plain numeral denoting the same exact decimal and LengthOfFractionalPart() the number of significant fraction digits. comparison: all ordered pairs of the grammatical strings of length <= 4 / 5 over {0 1 9 - . e E +}, plus random pairs with up to 46 mantissa digits and exponents up to 3000 (equal-by-shift, last-digit neighbours, unrelated), each compared both ways: Cmp/Equal/GT/GTE/LT/LTE vs exact decimal comparison (cross-checked with math/big.Rat for small exponents). distinct_nontrivial = distinct strings and pairs (hashed).",
+		Rule:               "grammar: every string over {0 1 9 - + . e E x} up to length 7 (quick) / 9 (thorough) is given to NewNumber and compared with the RFC 8259 number regex; for accepted strings String() must be a plain numeral denoting the same exact decimal and LengthOfFractionalPart() the number of significant fraction digits. comparison: all ordered pairs of the grammatical strings of length <= 5 over {0 1 9 - . e E +}, plus random pairs with up to 46 mantissa digits and exponents up to 3000 (equal-by-shift, last-digit neighbours, unrelated), each compared both ways: Cmp/Equal/GT/GTE/LT/LTE vs exact decimal comparison (cross-checked with math/big.Rat for small exponents). distinct_nontrivial = distinct strings and pairs (hashed).",
 		MinNontrivialQuick: 200000, MinNontrivialThorough: 2000000,
 		Assumptions: []string{"reference: harness/internal/ref/decimal.go (exact normalised decimals) cross-checked against math/big.Rat", "exponents with more than 3000 in magnitude are only probed at a few fixed points (memory)"},
 		Exhaustive:  "all strings up to the stated length over the 9-byte alphabet; all ordered pairs of grammatical strings up to the stated length",
